@@ -480,7 +480,7 @@ def check(case, ctx):
 
 
 SUBS = [
-    Sub("layouts", check, strategy=case_st, examples={"quick": 400, "thorough": 2000}, shards={"quick": 8, "thorough": 16}),
+    Sub("layouts", check, strategy=case_st, examples={"quick": 400, "thorough": 2000}, shards={"quick": 16, "thorough": 16}),
     Sub(
         "lattice",
         check,
